@@ -53,6 +53,18 @@ pub fn name_pool_c03() -> Vec<(&'static str, Shape)> {
     ]
 }
 
+/// the pool of C01: the C03 pool plus nested instances of different widths under one name
+pub fn name_pool_c01() -> Vec<(&'static str, Shape)> {
+    let a = || Shape::inst(&[("a", Shape::F0)]);
+    let ab = || Shape::inst(&[("a", Shape::F0), ("b", Shape::F0)]);
+    let mut v = name_pool_c03();
+    v.push(("k", Shape::inst(&[("inner", a()), ("g", Shape::F0)])));
+    v.push(("k", Shape::inst(&[("inner", ab()), ("g", Shape::F0)])));
+    v.push(("test:n/k@1.0.0", Shape::inst(&[("inner", a())])));
+    v.push(("test:n/k@1.1.0", Shape::inst(&[("inner", ab())])));
+    v
+}
+
 /// extra export-only names
 pub fn export_pool() -> Vec<(&'static str, Shape)> {
     let a = || Shape::inst(&[("a", Shape::F0)]);
@@ -134,12 +146,12 @@ pub fn build_library_from(rng: &mut Rng, n_wat: usize, with_wit: bool, imports: 
         };
         let wat = p.wat();
         let bytes = wat::parse_str(&wat).unwrap_or_else(|e| panic!("bad generated wat: {e}\n{wat}"));
-        lib.push(LibPkg { name: p.name, version: p.version, bytes, origin: "wat" });
+        lib.push(LibPkg { name: p.name.clone(), version: p.version.clone(), bytes, origin: "wat", shapes: Some((p.imports.clone(), p.exports.clone())) });
     }
     if with_wit {
         for w in WIT_WORLDS {
             let bytes = wit_component_bytes(WIT_LIB, w).unwrap_or_else(|e| panic!("wit world {w}: {e:?}"));
-            lib.push(LibPkg { name: format!("wit:{}", w), version: None, bytes, origin: "wit" });
+            lib.push(LibPkg { name: format!("wit:{}", w), version: None, bytes, origin: "wit", shapes: None });
         }
     }
     lib
